@@ -97,6 +97,35 @@ func editedListeners(r *ev.Run, thorough bool) {
 			c2 := Config{Uris: []string{"/b"}, UserAgent: "UA", Headers: []string{"X-C: d"}, BehindRedir: trust,
 				UrisLabel: "one", HdrLabel: "plain", RespLabel: "none"}
 			block("edited", c2)
+
+			// the operator's form, as DispatchEvent turns it into a configuration: every shape of
+			// the URI / header / user-agent fields (one-character URI, several, none)
+			forms := []struct {
+				label, uris, headers, ua string
+				cfg                      Config
+			}{
+				{"root-only", "/", "X-A: b", "UA", Config{Uris: []string{"/"}, UserAgent: "UA", Headers: []string{"X-A: b"}, UrisLabel: "root", HdrLabel: "plain"}},
+				{"root-and-b", "/, /b", "X-A: b", "UA", Config{Uris: []string{"/", "/b"}, UserAgent: "UA", Headers: []string{"X-A: b"}, UrisLabel: "root+b", HdrLabel: "plain"}},
+				{"no-uris", "", "X-A: b", "UA", Config{UserAgent: "UA", Headers: []string{"X-A: b"}, UrisLabel: "none", HdrLabel: "plain"}},
+				{"no-headers", "/a", "", "UA", Config{Uris: []string{"/a"}, UserAgent: "UA", UrisLabel: "one", HdrLabel: "none"}},
+				{"no-user-agent", "/a", "X-A: b", "", Config{Uris: []string{"/a"}, Headers: []string{"X-A: b"}, UrisLabel: "one", HdrLabel: "plain"}},
+				{"two-headers", "/a", "X-A: b, X-C: d", "UA", Config{Uris: []string{"/a"}, UserAgent: "UA", Headers: []string{"X-A: b", "X-C: d"}, UrisLabel: "one", HdrLabel: "two"}},
+			}
+			for _, f := range forms {
+				name = fmt.Sprintf("form-%s-%v", f.label, trust)
+				add := map[string]any{}
+				for k, v := range info {
+					add[k] = v
+				}
+				add["Name"], add["Uris"], add["Headers"], add["UserAgent"] = name, f.uris, f.headers, f.ua
+				if e := dispatch(packager.Type.Listener.Add, add); e != "" {
+					r.Violate("panic/listener-add", "Listener.Add panicked", e)
+					continue
+				}
+				cfg := f.cfg
+				cfg.BehindRedir, cfg.RespLabel = trust, "none"
+				block("form:"+f.label, cfg)
+			}
 		}()
 	}
 }
